@@ -26,20 +26,34 @@ func valueFieldByName(v reflect.Value, fields []string) (out reflect.Value, ok b
 		v = v.Elem()
 	}
 
+	// a field path can only be followed through structures
+	if v.Kind() != reflect.Struct || len(fields) == 0 {
+		return reflect.Value{}, false
+	}
+
 	out = v.FieldByName(fields[0])
 
 	// if pointer we dereference
 	if out.Kind() == reflect.Ptr {
 		if out.IsZero() {
-			out = reflect.New(out.Type().Elem())
+			out = reflect.New(out.Type().Elem()).Elem()
 		} else {
 			out = out.Elem()
+		}
+		// the pointer is the last element of the path
+		if len(fields) == 1 {
+			return out, out.IsValid()
 		}
 		return valueFieldByName(out, fields[1:])
 	}
 
 	if out.Kind() == reflect.Struct && len(fields) > 1 {
 		return valueFieldByName(out, fields[1:])
+	}
+
+	// the path continues but we cannot go any further
+	if len(fields) > 1 {
+		return reflect.Value{}, false
 	}
 
 	return out, out.IsValid()
